@@ -94,7 +94,7 @@ func runOutputCase(a args, idx int, r *h.Rand) {
 	if r.Chance(25) {
 		exportAs = []string{"MY_EXPORT", "custom_name", "X1"}[r.Intn(3)]
 	}
-	ncmd, nvar := r.Range(1, 3), r.Intn(3)
+	ncmd, nvar := r.Range(1, 3), r.Intn(5)
 	budget := 64 << 10 // the quantifier bounds outputs by 64 KiB
 	prod := task.NewTask()
 	prod.Name = name
